@@ -30,4 +30,10 @@ CHECKS = {
   "text": "Enumeration, all-pairs (n<=5) and table round-trips are complete for the stated n; groups and large-n pairs are generated search. Exploration level with exhaustive finite parts.",
   "note": "Trusted: harness canonical form (multiset of leaf sets per internal node) computed from (core, outs) only.",
  },
+ "C13": {
+  "engine": "enumeration",
+  "technique": "exhaustive enumeration of all spin/parity/p_break/C-parity assignments up to spin 4 against an independently coded selection rule; rank and entry check of the coupling->helicity matrix (SVD, exact sympy rank for small spins); Hypothesis-generated l_list/ls_list restrictions and name-reuse histories",
+  "text": "The (l,s) list is checked exhaustively for every spin triple up to 4 in both tiers; rank/count/entries exhaustively up to spin 5/2 (quick) and 3 (thorough). Restrictions and multi-decay histories are generated search.",
+  "note": "Trusted: harness rule (triangle, parity, C-parity), exact Clebsch-Gordan values, numpy SVD / sympy exact rank. User-supplied ls_list is asserted only for sub-lists of the allowed list.",
+ },
 }
